@@ -182,6 +182,8 @@ class BocWireWorld(World):
         if f['has_crc']:
             for bit in range(8 * L):
                 self._deliver(ctx, cells, f, data, roots, {'kind': 'flip', 'bit': bit}, enc_op)
+        # the intact encoding must still parse after all the damaged deliveries (no state between calls)
+        self._deliver(ctx, cells, f, data, roots, {'kind': 'none'}, enc_op)
         # Byzantine encoder: bad reference indices, CRC recomputed
         n = len(order)
         maxv = (1 << (8 * size)) - 1
@@ -236,6 +238,10 @@ class BocWireWorld(World):
         if record:
             ctx.op({'op': 'deliver', 'fault': fault})
         ok, res = call(Cell.from_boc, damaged)
+        if kind != 'none' and not ok and (ctx.evals % 37) == 0:
+            # duplicate delivery of the same damaged bytes: the verdict must not change
+            ctx.fault('duplicate')
+            ok, res = call(Cell.from_boc, damaged)
         if kind == 'none':
             klass = self._freedom_class(f, roots)
             if not ok:
@@ -361,10 +367,18 @@ class AddrWireWorld(World):
             if text is None:
                 continue
             alph = B64_URL if VARIANTS[v][2] else B64_STD
+            later = []
             for pos in range(len(text)):
                 for ch in alph:
                     if ch != text[pos]:
-                        self._subst(ctx, aop, rop, text, pos, ch)
+                        # the channel may duplicate: the same damaged text arrives twice in a row ...
+                        self._subst(ctx, aop, rop, text, pos, ch, times=2)
+                        if ctx.rng.random() < 0.02:
+                            later.append((pos, ch))
+            # ... or again much later (a user retrying the same typo), and the intact text must still parse
+            for pos, ch in later:
+                self._subst(ctx, aop, rop, text, pos, ch, times=1, again=True)
+            self._check(ctx, aop, rop)
 
     def replay(self, ctx, ops):
         a = next((o for o in ops if o['op'] == 'address'), None)
@@ -380,7 +394,7 @@ class AddrWireWorld(World):
                 text = self._check(ctx, a, o, record=False)
             elif o['op'] == 'substitute' and text is not None and o['pos'] < len(text):
                 ctx.op(o)
-                self._subst(ctx, a, rop, text, o['pos'], o['char'], record=False)
+                self._subst(ctx, a, rop, text, o['pos'], o['char'], record=False, times=o.get('times', 1))
 
     def _mk(self, aop):
         return Address((aop['wc'], bytes.fromhex(aop['acc'])))
@@ -423,15 +437,22 @@ class AddrWireWorld(World):
             return None
         return text
 
-    def _subst(self, ctx, aop, rop, text, pos, ch, record=True):
+    def _subst(self, ctx, aop, rop, text, pos, ch, record=True, times=1, again=False):
         damaged = text[:pos] + ch + text[pos + 1:]
         ctx.fault('substitute')
-        ctx.evaluated(1)
-        ok, res = call(Address, damaged)
-        if ok:
-            where = 'tag' if pos < 2 else ('crc' if pos >= 45 else 'body')
-            self._fail(ctx, [aop, rop, {'op': 'substitute', 'pos': pos, 'char': ch}], 'typo-accepted', 'Address(str)', where,
-                       'friendly address with character %d replaced by %r was accepted (as wc=%r)' % (pos, ch, getattr(res, 'wc', None)))
+        if again:
+            ctx.fault('redelivered-later')
+        for attempt in range(times):
+            if attempt:
+                ctx.fault('duplicate')
+            ctx.evaluated(1)
+            ok, res = call(Address, damaged)
+            if ok:
+                where = 'tag' if pos < 2 else ('crc' if pos >= 45 else 'body')
+                ops = [aop, rop] + [{'op': 'substitute', 'pos': pos, 'char': ch, 'times': attempt + 1}] * (2 if again else 1)
+                self._fail(ctx, ops, 'typo-accepted', 'Address(str)', where + ('' if attempt == 0 and not again else '-on-redelivery'),
+                           'friendly address with character %d replaced by %r was accepted (as wc=%r) on delivery #%d' % (pos, ch, getattr(res, 'wc', None), attempt + 1 + again))
+                return
 
     def _fail(self, ctx, ops, invariant, opkind, klass, msg):
         keep = list(ctx.ops)
